@@ -84,6 +84,13 @@ func (codecStream) Generate(rng *rand.Rand, tier string, emit func(Case)) {
 	for i := 0; i < n; i++ {
 		emit(Case{"op": "roundtrip", "spec": specToProto(sensitiveSpec(rng))})
 	}
+	// a device whose edits consist of empty, non-nil lists only: such a Spec is not valid and must not be
+	// written (what reads back from the file — absent lists — is rejected)
+	for _, which := range []string{"env", "mounts", "all"} {
+		inv := &specs.Spec{Version: specs.CurrentVersion, Kind: "vendor.com/class", Devices: []specs.Device{
+			{Name: "good", ContainerEdits: specs.ContainerEdits{Env: []string{"A=b"}}}, {Name: "hollow"}}}
+		emit(Case{"op": "roundtrip", "spec": specToProto(inv), "emptylists": which})
+	}
 	// sizes: files beyond 64 KiB and 1 MiB (many devices; one very long string), both encodings
 	for _, nd := range []int{400, 2500} {
 		big := &specs.Spec{Version: specs.CurrentVersion, Kind: "vendor.com/class"}
@@ -209,6 +216,16 @@ func (codecStream) Execute(c Case) {
 		}
 		if s == nil {
 			return
+		}
+		if which, ok := c["emptylists"].(string); ok && len(s.Devices) > 0 {
+			e := &s.Devices[len(s.Devices)-1].ContainerEdits
+			if which == "env" || which == "all" {
+				e.Env = []string{}
+			}
+			if which == "mounts" || which == "all" {
+				e.Mounts = []*specs.Mount{}
+				e.Hooks = []*specs.Hook{}
+			}
 		}
 		_ = os.RemoveAll(codecRoot)
 		defer os.RemoveAll(codecRoot)
